@@ -90,14 +90,22 @@ CHECKS = {
                   'bounded runtime contracts on location queries with tokenize / CPython positions as oracle',
         ref='DESIGN.md section 4 C06'),
     'C07': dict(
-        category='exploration',
-        text='Bounded only: copy()/get_slice() of every node and of sampled windows of every list field leave '
-             'source and tree (with positions) identical, the piece parses standalone under CPython to its own tree '
-             'and is structurally equal to the original sub-tree; cut == (copy, delete) on separate fresh trees; '
-             'with norm=False and norm=True.',
-        note='Bounded runtime contracts; oracles: before/after dumps, ast.parse in the natural embedding. No '
-             'deductive fragment (frame over a 10-deep call graph of handlers).',
-        technique='bounded runtime contracts (frame + faithfulness postconditions) on the real API; not a proof',
+        category='proof',
+        text='Proof of fragment (structural, all paths): in 46 get handlers and helpers (the entries of _GET_SLICE_HANDLERS '
+             '/ _GET_ONE_HANDLERS, _get_slice, _get_one, _cut_or_copy_asts*, get_slice_nosep) every statement that may '
+             'write something reachable from the SOURCE tree - a store or delete through a source name, a (transitive, '
+             'by-name) mutator called on a source receiver - is guarded by `cut` being true on every path, or is a '
+             'delegation to a cut-aware helper that is handed the same `cut`: with cut false (copy, get, get_slice) '
+             'these functions do not write the tree they read. 8 handlers that mutate the source temporarily and '
+             'restore it are not registered (listed in evidence). Faithfulness of the piece, token conservation and the '
+             'copy frame of everything else are bounded: copy()/get_slice() of every node and of sampled windows of '
+             'every list field leave source and tree (with positions) identical, the piece parses standalone under '
+             'CPython to its own tree and is structurally equal to the original sub-tree; cut == (copy, delete) on '
+             'separate fresh trees; with norm=False and norm=True, docstr strict/False.',
+        note='Structural route: the mutator set is computed by name over src/fst (over-approximation); receivers are '
+             'classified by name (self, ast, body, root, ... and locals bound to their parts). ' + BND,
+        technique='contract-based verification: structural all-paths frame obligation (mutations of the source only '
+                  'under cut) + bounded runtime contracts (frame + faithfulness postconditions) on the real API',
         ref='DESIGN.md section 4 C07'),
     'C08': dict(
         category='exploration',
